@@ -107,6 +107,8 @@ def judge_dl(ops, lines, S, case):
     it = iter(lines)
     pending_events = []
 
+    deferred = []      # diagnostics of the failures whose exception objects are read only at the end
+
     def next_result():
         ev = []
         for l in it:
@@ -175,7 +177,9 @@ def judge_dl(ops, lines, S, case):
                     fail("missing-library-did-not-raise-dl-exception", "%s -> %s" % (what, res[:120]))
                     return
                 f = res.split(" ")
-                if not errs or errs[-1][2] == "NULL" or f[2] != errs[-1][2]:
+                if f[2] == "DEFERRED" and errs and errs[-1][2] != "NULL":
+                    deferred.append(errs[-1][2])     # read at the end of the history
+                elif not errs or errs[-1][2] == "NULL" or f[2] != errs[-1][2]:
                     fail("exception-lacks-the-loader-diagnostic", "%s: exception carries %s, loader said %s" %
                          (what, f[2][:80], errs[-1][2][:80] if errs else None))
                     return
@@ -239,7 +243,9 @@ def judge_dl(ops, lines, S, case):
                         fail("missing-symbol-did-not-raise-dl-exception", "%s in %s -> %s" % (name, lib, res[:120]))
                         return
                     f = res.split(" ")
-                    if not errs or errs[-1][2] == "NULL" or f[2] != errs[-1][2]:
+                    if f[2] == "DEFERRED" and errs and errs[-1][2] != "NULL":
+                        deferred.append(errs[-1][2])
+                    elif not errs or errs[-1][2] == "NULL" or f[2] != errs[-1][2]:
                         fail("exception-lacks-the-loader-diagnostic", what)
                         return
                     S.counters["failed-lookups"] += 1
@@ -338,6 +344,17 @@ def judge_dl(ops, lines, S, case):
         S.counters["probes"] += 1
     # END: everything is dropped
     ev, res = next_result()
+    if res is not None and res.startswith("X ok KD="):
+        got = [x for x in res[len("X ok KD="):].split(",") if x]
+        S.counters["exception-diagnostics-read-after-later-loader-calls"] += len(got)
+        if got != deferred:
+            bad = next((i for i in range(min(len(got), len(deferred))) if got[i] != deferred[i]), min(len(got), len(deferred)))
+            idx = len(ops) - 1
+            fail("kept-exception-lost-its-diagnostic",
+                 "kept exception #%d read at the end of the history carries %s, the loader said %s when it was raised" %
+                 (bad, (got[bad] if bad < len(got) else "nothing")[:80],
+                  (deferred[bad] if bad < len(deferred) else "nothing")[:80]))
+            return
     for x in M.inst:
         x["holders"] = 0
     M.dl.clear()
